@@ -351,6 +351,8 @@ def _struct_common(ck, F, which):
     ck.rule("RE-ENTRY", "relocated cells are moved as values, not re-entered as display text", floor=3)
     guarded(ck, rs.reentry, F)
     guarded(ck, rs.value_move, F)
+    ck.rule("FULL-RANGE", "whole-row / whole-column references are not displaced along their full dimension", floor=5)
+    guarded(ck, rs.full_range_guard, F)
     ck.rule("STYLE-LAST", "move_cell copies the source style after every re-entry of the content", floor=2)
     guarded(ck, rs.style_last, F)
     import rules_attr as ra_
@@ -368,6 +370,7 @@ def c12(ck, F, tier):
     _struct_common(ck, F, "insert")
     ck.rule("SHIFT-PAIR", "descriptor rebuild shifts by +count / -count under the right guards", floor=4)
     guarded(ck, rs.shift_pair, F)
+    guarded(ck, rs.shift_pair_columns, F)
 
 
 def c13(ck, F, tier):
@@ -379,6 +382,7 @@ def c13(ck, F, tier):
     _struct_common(ck, F, "delete")
     ck.rule("SHIFT-PAIR", "descriptor rebuild shifts by +count / -count under the right guards", floor=4)
     guarded(ck, rs.shift_pair, F)
+    guarded(ck, rs.shift_pair_columns, F)
 
 
 def c14(ck, F, tier):
@@ -392,6 +396,7 @@ def c14(ck, F, tier):
     _struct_common(ck, F, "pair")
     ck.rule("SHIFT-PAIR", "descriptor rebuild shifts by +count / -count under the right guards", floor=4)
     guarded(ck, rs.shift_pair, F)
+    guarded(ck, rs.shift_pair_columns, F)
 
 
 def c15(ck, F, tier):
